@@ -254,7 +254,7 @@ fn storm(seed: u64, index: u64, rounds: u32) -> StormReport {
     let mut handles = Vec::new();
     for t in 0..8u8 {
         let (d, j, o) = (dir.clone(), job_rx.clone(), done_tx.clone());
-        handles.push(std::thread::Builder::new().stack_size(256 << 20).spawn(move || reader(10 + t, d, j, o)).unwrap());
+        handles.push(std::thread::Builder::new().stack_size(48 << 20).spawn(move || reader(10 + t, d, j, o)).expect("HARNESS: cannot spawn an analysing thread"));
     }
     drop(done_tx);
     let stop = Arc::new(AtomicBool::new(false));
@@ -450,9 +450,9 @@ fn run_storm(cfg: &Cfg, index: u64, stats: &mut Stats) {
     install_pause_policy();
     let rounds: u32 = 150;
     let seed = cfg.seed;
-    let (tx, rx) = channel::<StormReport>();
-    let handle = std::thread::Builder::new().stack_size(256 << 20).spawn(move || {
-        let report = storm(seed, index, rounds);
+    let (tx, rx) = channel::<Result<StormReport, crate::util::panic::PanicInfo>>();
+    let handle = std::thread::Builder::new().stack_size(64 << 20).spawn(move || {
+        let report = catch(|| storm(seed, index, rounds));
         let _ = tx.send(report);
     });
     let Ok(_handle) = handle else {
@@ -487,15 +487,27 @@ fn run_storm(cfg: &Cfg, index: u64, stats: &mut Stats) {
             }
         }
     };
-    let Some(report) = report else {
-        stats.violation(Violation {
-            signature: "storm-thread-died".into(),
-            tags: vec![],
-            generator: "storm".into(),
-            index,
-            detail: json!({"problem": "the owner thread panicked outside an analysis"}),
-        });
-        return;
+    let report = match report {
+        | Some(Ok(report)) => report,
+        | Some(Err(p)) if p.file.starts_with("/repo/") || p.file.contains("salsa") || p.file.contains("dashmap") => {
+            // the owner's own calls (set_overlay, clear_overlay, snapshot, quiescent queries) panicked in the product
+            stats.violation(Violation {
+                signature: format!("owner-panicked {}", p.site()),
+                tags: vec![],
+                generator: "storm".into(),
+                index,
+                detail: json!({"problem": format!("the editing owner panicked: {}", p.short())}),
+            });
+            return;
+        }
+        | Some(Err(p)) => {
+            stats.harness_error(format!("storm #{index}: the driver itself panicked: {}", p.short()));
+            return;
+        }
+        | None => {
+            stats.harness_error(format!("storm #{index}: the driver thread vanished"));
+            return;
+        }
     };
     stats.evaluations += report.completed + report.cancelled;
     stats.add("analyses_completed", report.completed);
